@@ -315,9 +315,27 @@ fn check_ranges(m: &mut Mon, lim: u32, seed: u64) {
         let o = rng.below(6) as u32;
         let r = mk(a, b);
         let exp_add = if (b as u64) + (o as u64) <= top as u64 { Some(mk(a + o, b + o)) } else { None };
-        m.chk("range.checked_add/edge", t, (a, b, o, r.checked_add(o.into())), (a, b, o, exp_add));
-        m.chk("size.checked_add/edge", t, TextSize::from(b).checked_add(o.into()), b.checked_add(o).map(TextSize::from));
-        m.chk("size.checked_sub/edge", t, TextSize::from(o).checked_sub(b.into()), o.checked_sub(b).map(TextSize::from));
+        // the checked operations must return None, never panic (overflow-checked build) or wrap (release build)
+        match guard(move || (r.checked_add(o.into()), TextSize::from(b).checked_add(o.into()), TextSize::from(o).checked_sub(b.into()))) {
+            Ok((ra, sa, ss)) => {
+                m.chk("range.checked_add/edge", t, (a, b, o, ra), (a, b, o, exp_add));
+                m.chk("size.checked_add/edge", t, sa, b.checked_add(o).map(TextSize::from));
+                m.chk("size.checked_sub/edge", t, ss, o.checked_sub(b).map(TextSize::from));
+            }
+            Err(p) => {
+                m.queries += 1;
+                m.bad("checked operation panicked/edge", t, format!("{} {} {} {}", a, b, o, p));
+            }
+        }
+        let lo2 = mk(rng.below(3) as u32, 3 + rng.below(3) as u32);
+        let exp_sub = if o <= u32::from(lo2.start()) { Some(mk(u32::from(lo2.start()) - o, u32::from(lo2.end()) - o)) } else { None };
+        match guard(move || lo2.checked_sub(o.into())) {
+            Ok(g) => m.chk("range.checked_sub/edge", t, (lo2, o, g), (lo2, o, exp_sub)),
+            Err(p) => {
+                m.queries += 1;
+                m.bad("checked operation panicked/edge", t, format!("{:?} {} {}", lo2, o, p));
+            }
+        }
         // the unchecked operators must panic instead of wrapping
         let res = guard(move || r + TextSize::from(o));
         m.queries += 1;
